@@ -1,3 +1,5 @@
+import SlipVerif.Model.Compile
 import SlipVerif.Model.Num
+import SlipVerif.Driver.Compile
 import SlipVerif.Driver.Num
 import SlipVerif.Driver.Util
